@@ -2,7 +2,6 @@ package main
 
 import (
 	"fmt"
-	"go/token"
 	"reflect"
 	"regexp"
 	"sort"
@@ -13,395 +12,11 @@ import (
 
 func init() {
 	register(&propDef{
-		id: "C49", run: runC49, minOblig: 12,
-		explanation: "Decides header/algorithm/width tables of ACME request signing: (protected header) jwsEncodeJSON's header struct has members alg, kid, jwk, nonce, url with omitempty on kid, jwk and nonce only; the jwk member is stored exactly when kid == noKeyID and the kid member exactly otherwise (evaluated), alg is the algorithm jwsHasher returned, url and nonce are the parameters; the signature is computed over protected || '.' || payload with the hash jwsHasher returned; (algorithms) jwsHasher maps RSA to RS256/SHA-256 and P-256/384/521 to ES256/384/512 with SHA-256/384/512, anything else to unsupported (evaluated per arm), and jwsSign handles exactly those key kinds; (fixed-width encodings) the coordinate width in jwkEncode and the R||S half-width in jwsSign evaluate to 32/48/66 bytes for 256/384/521-bit curves, each coordinate is left-padded by width minus ITS OWN length, and R, S are right-aligned in their halves; (thumbprint) the JWK templates list members in the lexicographic order of RFC 7638 and bind each verb to the matching key component; JWKThumbprint is SHA-256 of exactly that string; jwsWithMAC uses a header with alg=HS256, kid, url and no jwk. NOT decided: signature validity under an independent JOSE implementation.",
-		assumptions: []string{"encoding/json honours struct tags", "RFC 7518 table transcribed in c49.go"},
+		id: "C49", run: runC49, minOblig: 15,
+		explanation: "Decides, by symbolic interpretation of acme/jws.go (c49_sym.go: every function is walked for each case of a small domain — key kind, curve size, byte lengths of the integers, empty/non-empty kid, nonce and url, string/non-string claimset — with same-package helpers inlined, strings carried as terms, byte slices as segment sequences with exact offsets, struct fields as memory cells; the term computed is compared with the term the RFCs prescribe, so the factoring of the code does not matter): (protected header) the value jwsEncodeJSON marshals with encoding/json as protected header has exactly the members alg, url, nonce (only when non-empty), jwk (exactly when kid == noKeyID, value = jwkEncode(key.Public())) and kid (exactly otherwise, value = the kid parameter), never both; alg is the algorithm jwsHasher returned, url and nonce are the parameters; jwsSign is called with the key, the hash jwsHasher returned and base64url(protected) || '.' || payload, where payload is a string claimset verbatim or base64url(json(claimset)); the result is the flattened JWS {protected, payload, signature = base64url(jwsSign result)}; (algorithms) jwsHasher maps RSA to RS256/SHA-256 and P-256/384/521 to ES256/384/512 with SHA-256/384/512, anything else to unsupported (interpreted per key); jwsSign signs the payload with crypto.SignMessage under the given hash for RSA and ECDSA and rejects other keys; (fixed-width encodings) jwkEncode encodes x and y in 32/48/66 octets for 256/384/521-bit curves, each coordinate left-padded with zeros by the width minus ITS OWN length; jwsSign returns 2*width octets with R and S (taken from the ASN.1 SEQUENCE by position) right-aligned in their halves; (thumbprint) the JWK strings list their members in the lexicographic order of RFC 7638 and bind each member to the matching key component (e, n; crv, x, y), base64url without padding; JWKThumbprint is base64url(SHA-256(jwkEncode output)); (external account binding) jwsWithMAC's protected header is {alg: HS256, kid, url} without jwk and its signature is base64url(HMAC-SHA256(key, protected || '.' || base64url(payload))). NOT decided: signature validity under an independent JOSE implementation; the code paths on which json.Marshal or the signer fail.",
+		assumptions: []string{"encoding/json honours struct tags", "RFC 7518 table transcribed in c49.go", "models of math/big Bytes/FillBytes, base64 EncodeToString, fmt.Sprintf, crypto.SignMessage, asn1.Unmarshal, sha256/hmac in c49_sym.go"},
 	})
-	tech("C49", "struct-tag table via go/types, finite-domain evaluation of arm conditions and integer width expressions, argument-provenance rules for padding and templates")
-}
-
-func runC49(c *Ctx) {
-	const pk = "acme"
-	if f := c.fn(pk, "jwsEncodeJSON"); f != nil {
-		// header struct: the alloc with a field tagged json:"alg"
-		var hdr *ssa.Alloc
-		allInstrs(f, func(in ssa.Instruction) {
-			if al, ok := in.(*ssa.Alloc); ok {
-				if st := derefStruct(al.Type()); st != nil {
-					for i := 0; i < st.NumFields(); i++ {
-						if reflect.StructTag(st.Tag(i)).Get("json") == "alg" {
-							hdr = al
-						}
-					}
-				}
-			}
-		})
-		if hdr == nil {
-			c.fail("C49.header", "jwsEncodeJSON header struct", f, "protected header struct not found")
-		} else {
-			st := derefStruct(hdr.Type())
-			got := map[string]string{}
-			for i := 0; i < st.NumFields(); i++ {
-				got[st.Field(i).Name()] = reflect.StructTag(st.Tag(i)).Get("json")
-			}
-			want := map[string]string{"Alg": "alg", "KID": "kid,omitempty", "JWK": "jwk,omitempty", "Nonce": "nonce,omitempty", "URL": "url"}
-			ok := len(got) == len(want)
-			for k, v := range want {
-				if got[k] != v {
-					ok = false
-				}
-			}
-			c.check(ok, "C49.header", "jwsEncodeJSON header members", hdr, "alg, kid(omitempty), jwk(omitempty), nonce(omitempty), url", fmt.Sprintf("protected header members/tags are %v", got))
-			// jwk xor kid
-			var cmp *ssa.BinOp
-			allInstrs(f, func(in ssa.Instruction) {
-				if bo, okb := in.(*ssa.BinOp); okb && (bo.Op == token.EQL || bo.Op == token.NEQ) && bo.X == ssa.Value(f.Params[2]) {
-					if s, isC := constString(bo.Y); isC && s == "" {
-						cmp = bo
-					}
-				}
-			})
-			// the literal is built in a temporary and copied into the variable:
-			// look at every alloc of the header struct type
-			var hdrs []*ssa.Alloc
-			allInstrs(f, func(in ssa.Instruction) {
-				if al, oka := in.(*ssa.Alloc); oka && al.Type().String() == hdr.Type().String() {
-					hdrs = append(hdrs, al)
-				}
-			})
-			fieldStore := func(name string) *ssa.Store {
-				var out *ssa.Store
-				for _, h := range hdrs {
-					for _, r := range *h.Referrers() {
-						if fa, okf := r.(*ssa.FieldAddr); okf && st.Field(fa.Field).Name() == name {
-							for _, rr := range *fa.Referrers() {
-								if s, oks := rr.(*ssa.Store); oks {
-									out = s
-								}
-							}
-						}
-					}
-				}
-				return out
-			}
-			jwk, kid := fieldStore("JWK"), fieldStore("KID")
-			bad := ""
-			if cmp == nil || jwk == nil || kid == nil {
-				bad = "kid == noKeyID test or the jwk/kid stores not found"
-			} else {
-				for _, isNo := range []int64{0, 1} {
-					e := newEnv()
-					v := isNo
-					if cmp.Op == token.NEQ {
-						v = 1 - isNo
-					}
-					e.bind(cmp, v)
-					cut := e.cuts(f)
-					r := reachAfter(cmp, cut)
-					if r[jwk.Block()] != (isNo == 1) || r[kid.Block()] != (isNo == 0) {
-						bad = fmt.Sprintf("kid empty=%d: jwk member set=%v, kid member set=%v (RFC 8555 section 6.2: exactly one of them)", isNo, r[jwk.Block()], r[kid.Block()])
-					}
-				}
-				if stripConv(kid.Val) != ssa.Value(f.Params[2]) {
-					bad = "the kid member is not the kid parameter"
-				}
-			}
-			c.check(bad == "", "C49.header", "jwsEncodeJSON jwk xor kid", f, "jwk when no key id is known, kid otherwise, never both", bad)
-			// alg/url/nonce provenance
-			hs := callsNamed(f, "acme.jwsHasher")
-			okP := len(hs) == 1
-			if okP {
-				alg := resultN(hs[0].(*ssa.Call), 0)
-				a, n, u := fieldStore("Alg"), fieldStore("Nonce"), fieldStore("URL")
-				okP = a != nil && n != nil && u != nil && len(alg) == 1 && a.Val == alg[0] && n.Val == ssa.Value(f.Params[3]) && u.Val == ssa.Value(f.Params[4])
-			}
-			c.check(okP, "C49.header", "jwsEncodeJSON alg/nonce/url", f, "alg from jwsHasher, nonce and url from the parameters", "alg, nonce or url in the protected header do not come from jwsHasher / the parameters")
-			// signing input and hash
-			sg := callsNamed(f, "acme.jwsSign")
-			okS := len(sg) == 1 && len(hs) == 1
-			if okS {
-				sha := resultN(hs[0].(*ssa.Call), 1)
-				okS = len(sha) == 1 && sg[0].Common().Args[1] == sha[0] && sg[0].Common().Args[0] == ssa.Value(f.Params[1])
-				// payload: phead + "." + payload
-				in := stripConv(sg[0].Common().Args[2])
-				dot := false
-				var walk func(v ssa.Value, d int)
-				walk = func(v ssa.Value, d int) {
-					if d > 4 {
-						return
-					}
-					if bo, isB := v.(*ssa.BinOp); isB && bo.Op == token.ADD {
-						if s, isC := constString(bo.Y); isC && s == "." {
-							dot = true
-						}
-						walk(bo.X, d+1)
-						walk(bo.Y, d+1)
-					}
-				}
-				walk(in, 0)
-				okS = okS && dot
-			}
-			c.check(okS, "C49.signing-input", "jwsEncodeJSON", f, "signs protected || '.' || payload with the key and the hash of its algorithm", "the JWS signing input is not protected.payload signed with the key's algorithm hash")
-		}
-	}
-	// ---- jwsHasher table
-	if f := c.fn(pk, "jwsHasher"); f != nil {
-		var nameCmps []*ssa.BinOp
-		var arms []*ssa.Extract
-		var armT []string
-		allInstrs(f, func(in ssa.Instruction) {
-			if bo, ok := in.(*ssa.BinOp); ok && bo.Op == token.EQL {
-				if _, isC := constString(bo.Y); isC {
-					nameCmps = append(nameCmps, bo)
-				}
-			}
-			if ta, ok := in.(*ssa.TypeAssert); ok && ta.CommaOk {
-				for _, r := range *ta.Referrers() {
-					if ex, isE := r.(*ssa.Extract); isE && ex.Index == 1 {
-						arms = append(arms, ex)
-						armT = append(armT, ta.AssertedType.String())
-					}
-				}
-			}
-		})
-		hashName := map[int64]string{5: "SHA256", 6: "SHA384", 7: "SHA512", 0: "none"}
-		want := map[string][2]string{"rsa": {"RS256", "SHA256"}, "P-256": {"ES256", "SHA256"}, "P-384": {"ES384", "SHA384"}, "P-521": {"ES512", "SHA512"}, "P-224": {"", "none"}, "other": {"", "none"}}
-		bad := ""
-		for caseName, w := range want {
-			e := newEnv()
-			for i, a := range arms {
-				isRSA := strings.Contains(armT[i], "rsa.")
-				switch {
-				case caseName == "rsa":
-					e.bind(a, b2i(isRSA))
-				case caseName == "other":
-					e.bind(a, 0)
-				default:
-					e.bind(a, b2i(!isRSA))
-				}
-			}
-			for _, bo := range nameCmps {
-				s, _ := constString(bo.Y)
-				e.bind(bo, b2i(s == caseName))
-			}
-			e.solve(f)
-			var gotAlg, gotHash []string
-			for _, r := range returnsOf(f) {
-				if !e.reach[r.Block()] {
-					continue
-				}
-				s, _ := constString(retVal(r, 0))
-				k, _ := constInt(retVal(r, 1))
-				gotAlg = append(gotAlg, s)
-				gotHash = append(gotHash, hashName[k])
-			}
-			if len(gotAlg) != 1 || gotAlg[0] != w[0] || gotHash[0] != w[1] {
-				bad = fmt.Sprintf("key %s: algorithm %v hash %v, RFC 7518 requires %q with %s", caseName, gotAlg, gotHash, w[0], w[1])
-			}
-		}
-		c.check(bad == "" && len(arms) == 2, "C49.alg-table", "jwsHasher", f, "RS256/SHA-256, ES256/SHA-256, ES384/SHA-384, ES512/SHA-512; everything else unsupported", bad)
-	}
-	// ---- widths
-	for _, spec := range []struct{ fn, what string }{{"jwkEncode", "coordinate width"}, {"jwsSign", "R||S half width"}} {
-		f := c.fn(pk, spec.fn)
-		if f == nil {
-			continue
-		}
-		var bits []ssa.Value
-		bits = loadsOfPathSuffix(f, "BitSize")
-		// width value: the phi/int that is used in a make() length (possibly multiplied by 2) or SUB with len
-		var width ssa.Value
-		allInstrs(f, func(in ssa.Instruction) {
-			if bo, ok := in.(*ssa.BinOp); ok && bo.Op == token.SUB {
-				if lc, isC := bo.Y.(*ssa.Call); isC && calleeName(&lc.Call) == "builtin:len" {
-					if _, isPhi := bo.X.(*ssa.Phi); isPhi && width == nil {
-						width = bo.X
-					}
-				}
-			}
-		})
-		bad := ""
-		if len(bits) == 0 || width == nil {
-			bad = "BitSize read or width value not found"
-		} else {
-			for _, tc := range [][2]int64{{256, 32}, {384, 48}, {521, 66}} {
-				e := newEnv()
-				for _, b := range bits {
-					e.bind(b, tc[0])
-				}
-				// arm: ecdsa
-				allInstrs(f, func(in ssa.Instruction) {
-					if ta, ok := in.(*ssa.TypeAssert); ok && ta.CommaOk {
-						for _, r := range *ta.Referrers() {
-							if ex, isE := r.(*ssa.Extract); isE && ex.Index == 1 {
-								e.bind(ex, b2i(strings.Contains(ta.AssertedType.String(), "ecdsa.")))
-							}
-						}
-					}
-				})
-				e.solve(f)
-				v, ok := e.eval(width)
-				if !ok || v != tc[1] {
-					bad = fmt.Sprintf("%d-bit curve: %s evaluates to %d (ok=%v), RFC 7518 requires %d octets", tc[0], spec.what, v, ok, tc[1])
-				}
-			}
-		}
-		c.check(bad == "", "C49.width", spec.fn+" "+spec.what, f, "32/48/66 octets for P-256/384/521", bad)
-	}
-	if f := c.fn(pk, "jwkEncode"); f != nil {
-		// each pad: append(make([]byte, n-len(w)), v...) requires w == v
-		n := 0
-		okPad := true
-		for _, ci := range calls(f, nameIs("builtin:append")) {
-			mk, isM := ci.Common().Args[0].(*ssa.MakeSlice)
-			if !isM {
-				continue
-			}
-			sub, isS := mk.Len.(*ssa.BinOp)
-			if !isS || sub.Op != token.SUB {
-				continue
-			}
-			lc, isC := sub.Y.(*ssa.Call)
-			if !isC || calleeName(&lc.Call) != "builtin:len" {
-				continue
-			}
-			n++
-			if lc.Call.Args[0] != ci.Common().Args[1] {
-				okPad = false
-			}
-		}
-		c.check(okPad && n == 2, "C49.width", "jwkEncode coordinate padding", f, "x and y are each left-padded by width minus their own length", fmt.Sprintf("a coordinate is padded by the width minus the length of a different value (%d pads found)", n))
-		// templates
-		re := regexp.MustCompile(`"([a-z]+)":`)
-		nT := 0
-		okT := true
-		detail := ""
-		for _, ci := range callsNamed(f, "fmt.Sprintf") {
-			s, isC := constString(ci.Common().Args[0])
-			if !isC || !strings.HasPrefix(s, "{") {
-				continue
-			}
-			nT++
-			var names []string
-			for _, m := range re.FindAllStringSubmatch(s, -1) {
-				names = append(names, m[1])
-			}
-			if !sort.StringsAreSorted(names) {
-				okT = false
-				detail = fmt.Sprintf("JWK members %v are not in lexicographic order (RFC 7638 section 3.3)", names)
-			}
-			// verb binding: collect the variadic args in order
-			var args []ssa.Value
-			if sl, isS := ci.Common().Args[1].(*ssa.Slice); isS {
-				if al, isA := sl.X.(*ssa.Alloc); isA {
-					tmp := map[int64]ssa.Value{}
-					for _, r := range *al.Referrers() {
-						if ia, isI := r.(*ssa.IndexAddr); isI {
-							k, _ := constInt(ia.Index)
-							for _, rr := range *ia.Referrers() {
-								if st, isSt := rr.(*ssa.Store); isSt {
-									tmp[k] = st.Val
-								}
-							}
-						}
-					}
-					for i := int64(0); i < int64(len(tmp)); i++ {
-						args = append(args, tmp[i])
-					}
-				}
-			}
-			// members with %s verbs in order
-			var verbMembers []string
-			for _, m := range regexp.MustCompile(`"([a-z]+)":"%s"`).FindAllStringSubmatch(s, -1) {
-				verbMembers = append(verbMembers, m[1])
-			}
-			wantSrc := map[string]string{"e": "E", "n": "N", "crv": "Name", "x": "X", "y": "Y"}
-			if len(args) != len(verbMembers) {
-				okT = false
-				detail = "template verbs and arguments differ in number"
-			} else {
-				for i, mname := range verbMembers {
-					if !derivesFromField(args[i], wantSrc[mname], 0) {
-						okT = false
-						detail = fmt.Sprintf("JWK member %q is not filled from the key's %s", mname, wantSrc[mname])
-					}
-				}
-			}
-		}
-		c.check(okT && nT == 2, "C49.jwk-template", "jwkEncode templates", f, "members in lexicographic order, each bound to its key component", detail)
-	}
-	if f := c.fn(pk, "jwsSign"); f != nil {
-		// R right-aligned in first half, S in second: copy(sig[size-len(rb):], rb), copy(sig[size*2-len(sb):], sb)
-		n := 0
-		ok := true
-		for _, ci := range calls(f, nameIs("builtin:copy")) {
-			dst, isS := ci.Common().Args[0].(*ssa.Slice)
-			if !isS || dst.Low == nil {
-				continue
-			}
-			sub, isB := dst.Low.(*ssa.BinOp)
-			if !isB || sub.Op != token.SUB {
-				continue
-			}
-			lc, isC := sub.Y.(*ssa.Call)
-			if !isC || calleeName(&lc.Call) != "builtin:len" || lc.Call.Args[0] != ci.Common().Args[1] {
-				ok = false
-				continue
-			}
-			n++
-		}
-		c.check(ok && n == 2, "C49.width", "jwsSign R||S alignment", f, "R and S are right-aligned in fixed-width halves", "R or S is not right-aligned by its own length")
-	}
-	if f := c.fn(pk, "JWKThumbprint"); f != nil {
-		ok := false
-		enc := callsNamed(f, "acme.jwkEncode")
-		for _, ci := range callsNamed(f, "crypto/sha256.Sum256") {
-			if len(enc) == 1 {
-				for _, v := range resultN(enc[0].(*ssa.Call), 0) {
-					if stripConv(ci.Common().Args[0]) == v {
-						ok = true
-					}
-				}
-			}
-		}
-		c.check(ok, "C49.thumbprint", "JWKThumbprint", f, "SHA-256 over exactly the canonical JWK string", "the thumbprint is not SHA-256 of the jwkEncode output")
-	}
-	if f := c.fn(pk, "jwsWithMAC"); f != nil {
-		var hdr *ssa.Alloc
-		allInstrs(f, func(in ssa.Instruction) {
-			if al, ok := in.(*ssa.Alloc); ok {
-				if st := derefStruct(al.Type()); st != nil {
-					for i := 0; i < st.NumFields(); i++ {
-						if reflect.StructTag(st.Tag(i)).Get("json") == "alg" {
-							hdr = al
-						}
-					}
-				}
-			}
-		})
-		ok := hdr != nil
-		if ok {
-			st := derefStruct(hdr.Type())
-			var tags []string
-			for i := 0; i < st.NumFields(); i++ {
-				tags = append(tags, strings.Split(reflect.StructTag(st.Tag(i)).Get("json"), ",")[0])
-			}
-			sort.Strings(tags)
-			ok = strings.Join(tags, ",") == "alg,kid,url"
-			alg := ""
-			for _, r := range *hdr.Referrers() {
-				if fa, okf := r.(*ssa.FieldAddr); okf && reflect.StructTag(st.Tag(fa.Field)).Get("json") == "alg" {
-					for _, rr := range *fa.Referrers() {
-						if s, oks := rr.(*ssa.Store); oks {
-							alg, _ = constString(s.Val)
-						}
-					}
-				}
-			}
-			ok = ok && alg == "HS256"
-		}
-		c.check(ok, "C49.mac-header", "jwsWithMAC", f, "header {alg: HS256, kid, url}, no jwk", "the external-account-binding JWS header is not {alg=HS256, kid, url}")
-	}
+	tech("C49", "symbolic interpretation (pathWalker with auto-inlined helpers) over a finite case domain; strings as terms, byte slices as segment sequences, struct fields as memory cells; comparison with the RFC-prescribed term per case")
 }
 
 func b2i(b bool) int64 {
@@ -411,26 +26,525 @@ func b2i(b bool) int64 {
 	return 0
 }
 
-// derivesFromField: v is computed (through calls/conversions/phis) from a load of a field with the given name.
-func derivesFromField(v ssa.Value, field string, depth int) bool {
-	if depth > 10 || v == nil {
-		return false
+var c49curves = []struct {
+	name  string
+	bits  int64
+	width int64
+}{{"P-256", 256, 32}, {"P-384", 384, 48}, {"P-521", 521, 66}}
+
+// c49verdict collects the first failure of one obligation over all cases.
+type c49verdict struct {
+	bad   string
+	undec bool
+}
+
+func (v *c49verdict) fail(format string, a ...interface{}) {
+	if v.bad == "" {
+		v.bad = fmt.Sprintf(format, a...)
 	}
-	if _, f, _, ok := fieldOf(v); ok && f == field {
-		return true
+}
+
+func (v *c49verdict) cannot(format string, a ...interface{}) {
+	if v.bad == "" {
+		v.bad = fmt.Sprintf(format, a...)
+		v.undec = true
 	}
-	in, ok := v.(ssa.Instruction)
-	if !ok {
-		return false
+}
+
+func (c *Ctx) c49report(v *c49verdict, rule, construct string, at poser, okDetail string) {
+	switch {
+	case v.bad == "":
+		c.ok(rule, construct, at, okDetail)
+	case v.undec:
+		c.undecided(rule, construct, at, v.bad)
+	default:
+		c.fail(rule, construct, at, v.bad)
 	}
-	switch in.(type) {
-	case *ssa.Alloc:
-		return false
+}
+
+func c49key() c49v { return c49v{s: "‹key›", n: 1, hasN: true} }
+func c49pub() c49v { return c49v{s: "‹pub›", n: 1, hasN: true} }
+
+func runC49(c *Ctx) {
+	const pk = "acme"
+	if f := c.fn(pk, "jwsEncodeJSON"); f != nil {
+		c49Encode(c, f)
 	}
-	for _, op := range in.Operands(nil) {
-		if *op != nil && derivesFromField(*op, field, depth+1) {
-			return true
+	if f := c.fn(pk, "jwsHasher"); f != nil {
+		c49Hasher(c, f)
+	}
+	if f := c.fn(pk, "jwkEncode"); f != nil {
+		c49JWK(c, f)
+	}
+	if f := c.fn(pk, "jwsSign"); f != nil {
+		c49Sign(c, f)
+	}
+	if f := c.fn(pk, "JWKThumbprint"); f != nil {
+		c49Thumb(c, f)
+	}
+	if f := c.fn(pk, "jwsWithMAC"); f != nil {
+		c49MAC(c, f)
+	}
+}
+
+// ---- jwsHasher: RFC 7518 section 3.1 table
+
+func c49Hasher(c *Ctx, f *ssa.Function) {
+	hashName := map[int64]string{5: "SHA256", 6: "SHA384", 7: "SHA512", 0: "none"}
+	cases := []struct{ name, kind, crv, alg, hash string }{
+		{"rsa", "rsa", "", "RS256", "SHA256"},
+		{"P-256", "ec", "P-256", "ES256", "SHA256"},
+		{"P-384", "ec", "P-384", "ES384", "SHA384"},
+		{"P-521", "ec", "P-521", "ES512", "SHA512"},
+		{"P-224", "ec", "P-224", "", "none"},
+		{"other", "other", "", "", "none"},
+	}
+	var v c49verdict
+	for _, tc := range cases {
+		m := newC49M()
+		m.kind, m.crv, m.bits = tc.kind, tc.crv, map[string]int64{"P-224": 224, "P-256": 256, "P-384": 384, "P-521": 521}[tc.crv]
+		r := c49walk(m, f, []c49v{c49pub()})
+		if r.end != "return" || len(r.rets) != 2 || !r.rets[1].hasN {
+			v.cannot("key %s: jwsHasher could not be interpreted (%s)", tc.name, r.problem())
+			continue
+		}
+		alg := r.retStr(0)
+		h, known := hashName[r.rets[1].n]
+		if !known {
+			h = "crypto.Hash(" + itoa(r.rets[1].n) + ")"
+		}
+		if alg != tc.alg || h != tc.hash {
+			v.fail("key %s: algorithm [%s] hash [%s], RFC 7518 requires %q with %s", tc.name, alg, h, tc.alg, tc.hash)
 		}
 	}
-	return false
+	c.c49report(&v, "C49.alg-table", "jwsHasher", f, "RS256/SHA-256, ES256/SHA-256, ES384/SHA-384, ES512/SHA-512; everything else unsupported")
+}
+
+// ---- jwkEncode: RFC 7517 / 7518 section 6 / 7638 section 3
+
+var c49memberRE = regexp.MustCompile(`"([A-Za-z0-9_]+)":"([^"]*)"`)
+var c49segRE = regexp.MustCompile(`^([^\[\]]+)\[(\d+):(\d+)\]`)
+
+// c49parseJWK splits {"a":"..","b":".."} into member names (in order) and values.
+func c49parseJWK(s string) (names []string, vals map[string]string, ok bool) {
+	vals = map[string]string{}
+	var parts []string
+	for _, mt := range c49memberRE.FindAllStringSubmatch(s, -1) {
+		names = append(names, mt[1])
+		vals[mt[1]] = mt[2]
+		parts = append(parts, mt[0])
+	}
+	return names, vals, "{"+strings.Join(parts, ",")+"}" == s
+}
+
+func c49parseSegs(s string) ([]c49seg, bool) {
+	var out []c49seg
+	for s != "" {
+		mt := c49segRE.FindStringSubmatch(s)
+		if mt == nil {
+			return nil, false
+		}
+		var lo, hi int64
+		fmt.Sscan(mt[2], &lo)
+		fmt.Sscan(mt[3], &hi)
+		out = append(out, c49seg{mt[1], lo, hi})
+		s = s[len(mt[0]):]
+	}
+	return out, true
+}
+
+// c49b64arg: the argument of b64u(...)
+func c49b64arg(s string) (string, bool) {
+	if strings.HasPrefix(s, "b64u(") && strings.HasSuffix(s, ")") {
+		return s[5 : len(s)-1], true
+	}
+	return "", false
+}
+
+func c49pad(sym string, width, l int64) string {
+	return c49render(append(c49zeros(width-l), c49seg{sym, 0, l}))
+}
+
+func c49Join(xs []string) string { return "[" + strings.Join(xs, " ") + "]" }
+
+func c49JWK(c *Ctx, f *ssa.Function) {
+	var tmpl, width, padv c49verdict
+	// template facts shared by the RSA and the EC case
+	template := func(label, got string, wantNames []string, want map[string]string, src map[string]string) bool {
+		names, vals, ok := c49parseJWK(got)
+		if !ok {
+			tmpl.fail("%s: the JWK is not a flat JSON object of string members: %s", label, got)
+			return false
+		}
+		if !sort.StringsAreSorted(names) {
+			tmpl.fail("JWK members %s are not in lexicographic order (RFC 7638 section 3.3)", c49Join(names))
+			return false
+		}
+		if c49Join(names) != c49Join(wantNames) {
+			tmpl.fail("%s: JWK members are %s, RFC 7638 requires exactly %s", label, c49Join(names), c49Join(wantNames))
+			return false
+		}
+		for _, n := range names {
+			if s, bound := src[n]; bound {
+				arg, isB := c49b64arg(vals[n])
+				if !isB {
+					tmpl.fail("%s: JWK member %q is not base64url without padding: %s", label, n, vals[n])
+					return false
+				}
+				segs, okS := c49parseSegs(arg)
+				found := false
+				for _, sg := range segs {
+					if sg.sym != "0" && sg.sym != s {
+						okS = false
+					}
+					if sg.sym == s {
+						found = true
+					}
+				}
+				if !okS || !found {
+					tmpl.fail("JWK member %q is not filled from the key's %s (it is %s)", n, s, vals[n])
+					return false
+				}
+			} else if vals[n] != want[n] {
+				tmpl.fail("%s: JWK member %q is %q, required %q", label, n, vals[n], want[n])
+				return false
+			}
+		}
+		return true
+	}
+	// RSA
+	{
+		m := newC49M()
+		m.kind = "rsa"
+		m.lens["N"], m.lens["big(‹E›)"] = 256, 3
+		r := c49walk(m, f, []c49v{c49pub()})
+		if isErr, known := r.failed(1); r.end != "return" || !known || isErr {
+			tmpl.cannot("RSA key: jwkEncode could not be interpreted (%s)", r.problem())
+		} else if template("RSA key", r.retStr(0), []string{"e", "kty", "n"}, map[string]string{"kty": "RSA"}, map[string]string{"e": "big(‹E›)", "n": "N"}) {
+			want := `{"e":"b64u(big(‹E›)[0:3])","kty":"RSA","n":"b64u(N[0:256])"}`
+			if got := r.retStr(0); got != want {
+				tmpl.fail("RSA key: the JWK is %s, RFC 7518 section 6.3.1 requires %s", got, want)
+			}
+		}
+	}
+	// unsupported
+	{
+		m := newC49M()
+		m.kind = "other"
+		r := c49walk(m, f, []c49v{c49pub()})
+		if isErr, known := r.failed(1); r.end != "return" || !known {
+			tmpl.cannot("unsupported key: jwkEncode could not be interpreted (%s)", r.problem())
+		} else if !isErr {
+			tmpl.fail("a key that is neither RSA nor ECDSA is encoded as %s instead of being rejected", r.retStr(0))
+		}
+	}
+	// EC
+	for _, cv := range c49curves {
+		w := cv.width
+		for _, ls := range [][2]int64{{w - 1, w - 1}, {w, w}, {w - 1, w - 3}, {w - 2, w}, {w, w - 1}} {
+			lx, ly := ls[0], ls[1]
+			label := fmt.Sprintf("%d-bit curve, %d-octet X, %d-octet Y", cv.bits, lx, ly)
+			m := newC49M()
+			m.kind, m.bits, m.crv = "ec", cv.bits, cv.name
+			m.lens["X"], m.lens["Y"] = lx, ly
+			r := c49walk(m, f, []c49v{c49pub()})
+			which := &padv
+			if lx == ly {
+				which = &width
+			}
+			if isErr, known := r.failed(1); r.end != "return" || !known || isErr {
+				which.cannot("%s: jwkEncode could not be interpreted (%s)", label, r.problem())
+				continue
+			}
+			got := r.retStr(0)
+			if !template(label, got, []string{"crv", "kty", "x", "y"}, map[string]string{"crv": "‹crv›", "kty": "EC"}, map[string]string{"x": "X", "y": "Y"}) {
+				continue
+			}
+			_, vals, _ := c49parseJWK(got)
+			for _, co := range []struct {
+				member, sym string
+				own, other  int64
+			}{{"x", "X", lx, ly}, {"y", "Y", ly, lx}} {
+				arg, _ := c49b64arg(vals[co.member])
+				want := c49pad(co.sym, w, co.own)
+				if arg == want {
+					continue
+				}
+				segs, _ := c49parseSegs(arg)
+				total, _ := c49total(segs)
+				switch {
+				case lx == ly && total != w:
+					width.fail("%d-bit curve: coordinate width evaluates to %d (a %d-octet %s is encoded as %s), RFC 7518 requires %d octets", cv.bits, total, co.own, co.member, arg, w)
+				case arg == c49render(append(c49zeros(w-co.other), c49seg{co.sym, 0, co.own})):
+					padv.fail("%s: coordinate %s is padded by the width minus the length of a different value (%s, required %s)", label, co.member, arg, want)
+				default:
+					padv.fail("%s: coordinate %s is encoded as %s (%d octets), required %s: left-padded with zeros to %d octets by its own length", label, co.member, arg, total, want, w)
+				}
+			}
+		}
+	}
+	c.c49report(&width, "C49.width", "jwkEncode coordinate width", f, "32/48/66 octets for P-256/384/521")
+	c.c49report(&padv, "C49.width", "jwkEncode coordinate padding", f, "x and y are each left-padded by width minus their own length")
+	c.c49report(&tmpl, "C49.jwk-template", "jwkEncode templates", f, "members in lexicographic order, each bound to its key component")
+}
+
+// ---- jwsSign: RFC 7518 section 3.4 (R||S, fixed width)
+
+func c49Sign(c *Ctx, f *ssa.Function) {
+	var kinds, width, align c49verdict
+	params := func(m *c49M) []c49v {
+		return []c49v{c49key(), {s: "‹hash›", n: 5, hasN: true}, m.newBuf([]c49seg{{"P", 0, -1}})}
+	}
+	const wantSig = "sig(‹key›,P,‹hash›)"
+	{
+		m := newC49M()
+		m.kind = "rsa"
+		r := c49walk(m, f, params(m))
+		if r.end != "return" || len(r.rets) != 2 {
+			kinds.cannot("RSA key: jwsSign could not be interpreted (%s)", r.problem())
+		} else if got := c49render(r.retBytes(0)); got != wantSig {
+			kinds.fail("RSA key: jwsSign returns %s, required the crypto.SignMessage signature of the payload under the given hash", got)
+		}
+	}
+	{
+		m := newC49M()
+		m.kind = "other"
+		r := c49walk(m, f, params(m))
+		if isErr, known := r.failed(1); r.end != "return" || !known {
+			kinds.cannot("unsupported key: jwsSign could not be interpreted (%s)", r.problem())
+		} else if !isErr {
+			kinds.fail("a key that is neither RSA nor ECDSA is signed with (%s) instead of being rejected", c49render(r.retBytes(0)))
+		}
+	}
+	for _, cv := range c49curves {
+		w := cv.width
+		for _, ls := range [][2]int64{{w - 1, w - 1}, {w, w}, {w - 1, w - 3}, {w, w - 2}, {w - 2, w}} {
+			lr, lsv := ls[0], ls[1]
+			label := fmt.Sprintf("%d-bit curve, %d-octet R, %d-octet S", cv.bits, lr, lsv)
+			m := newC49M()
+			m.kind, m.bits, m.crv = "ec", cv.bits, cv.name
+			m.lens["R"], m.lens["S"] = lr, lsv
+			r := c49walk(m, f, params(m))
+			which := &align
+			if lr == lsv {
+				which = &width
+			}
+			if isErr, known := r.failed(1); r.end != "return" || !known || isErr {
+				which.cannot("%s: jwsSign could not be interpreted (%s)", label, r.problem())
+				continue
+			}
+			if srcs := m.calls["asn1"]; len(srcs) != 1 || srcs[0][0] != wantSig {
+				kinds.fail("ECDSA key: R and S are not parsed from the crypto.SignMessage signature of the payload under the given hash (%v)", srcs)
+			}
+			segs := r.retBytes(0)
+			got := c49render(segs)
+			var wantSegs []c49seg
+			wantSegs = append(wantSegs, c49zeros(w-lr)...)
+			wantSegs = append(wantSegs, c49seg{"R", 0, lr})
+			wantSegs = append(wantSegs, c49zeros(w-lsv)...)
+			wantSegs = append(wantSegs, c49seg{"S", 0, lsv})
+			want := c49render(wantSegs)
+			if got == want {
+				continue
+			}
+			total, known := c49total(segs)
+			if !known || total != 2*w {
+				if known && total%2 == 0 {
+					width.fail("%d-bit curve: R||S half width evaluates to %d, RFC 7518 section 3.4 requires %d octets", cv.bits, total/2, w)
+				} else {
+					width.fail("%d-bit curve: the signature is %s, RFC 7518 section 3.4 requires %d octets", cv.bits, got, 2*w)
+				}
+				continue
+			}
+			align.fail("%s: the signature is %s, required %s (R and S right-aligned in %d-octet halves)", label, got, want, w)
+		}
+	}
+	c.c49report(&width, "C49.width", "jwsSign R||S half width", f, "32/48/66 octets for P-256/384/521")
+	c.c49report(&align, "C49.width", "jwsSign R||S alignment", f, "R and S are right-aligned in fixed-width halves")
+	c.c49report(&kinds, "C49.alg-table", "jwsSign key kinds", f, "RSA and ECDSA keys sign the payload with crypto.SignMessage under the given hash; other keys are rejected")
+}
+
+// ---- jwsEncodeJSON: RFC 7515 section 7.2.2, RFC 8555 section 6.2
+
+func c49names(ms []c49member) []string {
+	var out []string
+	for _, x := range ms {
+		out = append(out, x.name)
+	}
+	return out
+}
+
+func c49member1(ms []c49member, name string) (string, bool) {
+	for _, x := range ms {
+		if x.name == name {
+			return x.val, true
+		}
+	}
+	return "", false
+}
+
+func c49Encode(c *Ctx, f *ssa.Function) {
+	var members, xor, prov, input, output c49verdict
+	const alg, sha = "jwsHasher(pub(‹key›))#0", "jwsHasher(pub(‹key›))#1"
+	const jwk = "jwkEncode(pub(‹key›))"
+	for cs := 0; cs < 16; cs++ {
+		hasKid, hasNonce, hasURL, claimStr := cs&1 != 0, cs&2 != 0, cs&4 == 0, cs&8 != 0
+		label := fmt.Sprintf("kid empty=%v, nonce empty=%v, url empty=%v, string claimset=%v", !hasKid, !hasNonce, !hasURL, claimStr)
+		m := newC49M()
+		m.kind = "rsa"
+		m.claimStr = claimStr
+		m.opaque = map[string]bool{"jwsHasher": true, "jwkEncode": true, "jwsSign": true}
+		str := func(on bool, s string) c49v {
+			if !on {
+				return c49v{s: "", n: 0, hasN: true}
+			}
+			return m.strVal(s)
+		}
+		r := c49walk(m, f, []c49v{{s: "‹claimset›", n: 1, hasN: true}, c49key(), str(hasKid, "‹kid›"), str(hasNonce, "‹nonce›"), str(hasURL, "‹url›")})
+		if isErr, known := r.failed(1); r.end != "return" || !known || isErr {
+			for _, v := range []*c49verdict{&members, &xor, &prov, &input, &output} {
+				v.cannot("%s: jwsEncodeJSON could not be interpreted (%s)", label, r.problem())
+			}
+			continue
+		}
+		// the signing input
+		sg := m.calls["jwsSign"]
+		if len(sg) != 1 || len(sg[0]) != 3 {
+			for _, v := range []*c49verdict{&members, &xor, &prov, &input, &output} {
+				v.fail("%s: jwsSign is called %d times, expected once", label, len(sg))
+			}
+			continue
+		}
+		payload := "b64u(S:json(‹claimset›))"
+		if claimStr {
+			payload = "‹claimstr›"
+		}
+		// the protected header: the marshalled struct whose base64url form starts the signing input
+		// (or, when the signing input is malformed, the marshalled struct that has an alg member)
+		var hdr []c49member
+		found := false
+		for _, js := range m.jsons {
+			if strings.HasPrefix(sg[0][2], "S:b64u(S:"+c49json(js)+")") {
+				hdr, found = js, true
+			}
+		}
+		if !found {
+			for _, js := range m.jsons {
+				if _, has := c49member1(js, "alg"); has && !found {
+					hdr, found = js, true
+				}
+			}
+		}
+		if !found {
+			for _, v := range []*c49verdict{&members, &xor, &prov, &input} {
+				v.fail("the protected header is not serialised by encoding/json from a header struct (hand-built JSON is not valid JSON for arbitrary kid/nonce/url values); %s: the signing input is %s", label, sg[0][2])
+			}
+			continue
+		}
+		phead := "b64u(S:" + c49json(hdr) + ")"
+		want := []string{"alg"}
+		if hasKid {
+			want = append(want, "kid")
+		} else {
+			want = append(want, "jwk")
+		}
+		if hasNonce {
+			want = append(want, "nonce")
+		}
+		want = append(want, "url")
+		if got := c49names(hdr); c49Join(got) != c49Join(want) {
+			members.fail("%s: protected header members are %s, RFC 8555 section 6.2 requires %s", label, c49Join(got), c49Join(want))
+		}
+		vj, okJ := c49member1(hdr, "jwk")
+		vk, okK := c49member1(hdr, "kid")
+		switch {
+		case okJ == okK:
+			xor.fail("kid empty=%v: jwk member set=%v, kid member set=%v (RFC 8555 section 6.2: exactly one of them)", !hasKid, okJ, okK)
+		case okJ != !hasKid:
+			xor.fail("kid empty=%v: jwk member set=%v, kid member set=%v (jwk is for requests without a key id, kid for all others)", !hasKid, okJ, okK)
+		case okK && vk != "q(‹kid›)":
+			xor.fail("the kid member is %s, not the kid parameter", vk)
+		case okJ && vj != "raw("+jwk+")":
+			xor.fail("the jwk member is %s, not the JWK of key.Public()", vj)
+		}
+		if va, _ := c49member1(hdr, "alg"); va != "q("+alg+")" {
+			prov.fail("%s: alg in the protected header is %s, not the algorithm jwsHasher returned for key.Public()", label, va)
+		}
+		if vn, has := c49member1(hdr, "nonce"); has && vn != "q(‹nonce›)" {
+			prov.fail("%s: nonce in the protected header is %s, not the nonce parameter", label, vn)
+		}
+		wantURL := "q()"
+		if hasURL {
+			wantURL = "q(‹url›)"
+		}
+		if vu, has := c49member1(hdr, "url"); has && vu != wantURL {
+			prov.fail("%s: url in the protected header is %s, not the url parameter", label, vu)
+		}
+		wantIn := []string{"‹key›", sha, "S:" + phead + "." + payload}
+		if strings.Join(sg[0], " | ") != strings.Join(wantIn, " | ") {
+			input.fail("%s: jwsSign is called with (%s), required (%s): the key, the hash of its algorithm, and protected || '.' || payload", label, strings.Join(sg[0], " | "), strings.Join(wantIn, " | "))
+		}
+		sigTerm := "jwsSign(" + strings.Join(sg[0], ",") + ")"
+		wantOut := `S:json{"payload":q(` + payload + `),"protected":q(` + phead + `),"signature":q(b64u(` + sigTerm + `))}`
+		if got := c49render(r.retBytes(0)); got != wantOut {
+			output.fail("%s: the result is %s, required the flattened JWS %s", label, got, wantOut)
+		}
+	}
+	c.c49report(&members, "C49.header", "jwsEncodeJSON header members", f, "alg, kid or jwk, nonce (omitted when empty), url")
+	c.c49report(&xor, "C49.header", "jwsEncodeJSON jwk xor kid", f, "jwk when no key id is known, kid otherwise, never both")
+	c.c49report(&prov, "C49.header", "jwsEncodeJSON alg/nonce/url", f, "alg from jwsHasher, nonce and url from the parameters")
+	c.c49report(&input, "C49.signing-input", "jwsEncodeJSON", f, "signs protected || '.' || payload with the key and the hash of its algorithm")
+	c.c49report(&output, "C49.signing-input", "jwsEncodeJSON flattened JWS", f, "{protected, payload, signature} carry exactly what was signed and the base64url signature")
+}
+
+// ---- JWKThumbprint: RFC 7638
+
+func c49Thumb(c *Ctx, f *ssa.Function) {
+	var v c49verdict
+	m := newC49M()
+	m.kind = "rsa"
+	m.opaque = map[string]bool{"jwkEncode": true}
+	r := c49walk(m, f, []c49v{c49pub()})
+	const want = "b64u(sha256(S:jwkEncode(‹pub›))[0:32])"
+	if isErr, known := r.failed(1); r.end != "return" || !known || isErr {
+		v.cannot("JWKThumbprint could not be interpreted (%s)", r.problem())
+	} else if got := r.retStr(0); got != want {
+		v.fail("the thumbprint is %s, RFC 7638 requires %s: base64url of SHA-256 of the jwkEncode output", got, want)
+	}
+	c.c49report(&v, "C49.thumbprint", "JWKThumbprint", f, "SHA-256 over exactly the canonical JWK string")
+}
+
+// ---- jwsWithMAC: RFC 8555 section 7.3.4
+
+func c49MAC(c *Ctx, f *ssa.Function) {
+	var hdr, mac c49verdict
+	m := newC49M()
+	m.kind = "rsa"
+	r := c49walk(m, f, []c49v{m.newBuf([]c49seg{{"K", 0, 32}}), m.strVal("‹kid›"), m.strVal("‹url›"), m.newBuf([]c49seg{{"RP", 0, -1}})})
+	st := derefStruct(f.Signature.Results().At(0).Type())
+	if isErr, known := r.failed(1); r.end != "return" || !known || isErr || st == nil || !strings.HasPrefix(r.retStr(0), "&") {
+		hdr.cannot("jwsWithMAC could not be interpreted (%s)", r.problem())
+		mac.cannot("jwsWithMAC could not be interpreted (%s)", r.problem())
+	} else {
+		got := map[string]string{}
+		for i := 0; i < st.NumFields(); i++ {
+			tag := strings.Split(reflect.StructTag(st.Tag(i)).Get("json"), ",")[0]
+			got[tag] = m.mem[r.retStr(0)[1:]+"."+st.Field(i).Name()].s
+		}
+		const wantP = `b64u(S:json{"alg":q(HS256),"kid":q(‹kid›),"url":q(‹url›)})`
+		const wantPL = "b64u(RP)"
+		const wantS = "b64u(hmac-sha256[K[0:32]](S:" + wantP + "." + wantPL + ")[0:32])"
+		if got["protected"] != wantP {
+			hdr.fail("the external-account-binding JWS header is not {alg=HS256, kid, url}: protected is %s, required %s", got["protected"], wantP)
+		}
+		if got["payload"] != wantPL {
+			mac.fail("the payload member is %s, required %s", got["payload"], wantPL)
+		} else if got["signature"] != wantS && got["protected"] == wantP {
+			mac.fail("the signature member is %s, required %s: base64url of HMAC-SHA256 under the MAC key over protected || '.' || payload", got["signature"], wantS)
+		} else if !strings.HasPrefix(got["signature"], "b64u(hmac-sha256[K[0:32]](S:"+got["protected"]+"."+got["payload"]+")") {
+			mac.fail("the signature member is %s: not base64url of HMAC-SHA256 under the MAC key over protected || '.' || payload", got["signature"])
+		}
+	}
+	c.c49report(&hdr, "C49.mac-header", "jwsWithMAC", f, "header {alg: HS256, kid, url}, no jwk")
+	c.c49report(&mac, "C49.mac-header", "jwsWithMAC MAC", f, "signature = base64url(HMAC-SHA256(key, protected || '.' || base64url(payload)))")
 }
